@@ -4,51 +4,72 @@
    and client programs progs (external threads: submit / wakeup_one_worker / stop / wait-for-the-others) under
    SOME schedule" - every theorem is quantified over all of them.
 
-   STATUS (honest): the two headline statements are stated below at full strength as `..._statement`
-   definitions but are NOT proved in Coq:
-     c07_run_once_statement     - a task starts at most once and only if its submission was accepted
-     c07_stop_drains_statement  - when stop() has returned, every task accepted before stop() was called and
-                                  every task pushed into a local queue has finished
-   What IS proved (for all configurations, programs and schedules) are the parts of their argument that concern
-   the order of events in stop() and where tasks may run:
-     c07_run_once_partial       - a task only ever starts on a worker thread, i.e. inside the RunnerScope that
-                                  keep_execute opens for this executor (not proved: at most once, only accepted)
-     c07_stop_drains_partial    - when stop() has returned every worker has left keep_execute and the balance
-                                  thread has exited; no STOP marker exists in the global queue before stop() is
-                                  called (so everything accepted earlier has a smaller ticket than every marker)
-                                  nor while the balance thread is alive (so what it moves to the global queue is
-                                  ahead of every marker); local queues and the balance thread only ever hold
-                                  FUNCTION tasks (a worker exits only on a marker popped from the global queue)
-   Missing for the full statements: the ticket invariant of the global queue (every pop ticket is consumed or
-   has a worker waiting on it), "a worker past its local try_pop has an empty local queue", the location
-   invariant of accepted tasks and the token-counting invariant for at-most-once.  Both full statements are
-   checked instead by exhaustive exploration of the extracted model on small programs (no deadlock, outcome sets)
-   and by the monitors on the real executor (see checks/c07.py). *)
+   STATUS: c07_run_at_most_once (NoDup of started tasks), c07_runs_inside_runner_scope and c07_stop_drains are
+   theorems, and so is c07_run_once (at most once + only accepted tasks start + on a worker thread), for every
+   configuration, client program, task graph and schedule.  Liveness (stop() eventually returns) is not a theorem (see checks/c07.py).
+   Model-level meaning of the property text: acc_before = tasks whose submission returned while stop() had not been
+   called; acc_local = tasks pushed into a local queue (by any task, at any time); finished = callable returned,
+   i.e. the future is ready.  In the model every submission to the pool succeeds (enqueue_task returns 0, pinned
+   by c07_refused_submission_invalid_future); refusing executors are covered by monitors only. *)
 From Coq Require Import ZArith List Bool.
 Require Import Verif.Gen.Gen_executor Verif.Conc.Machine Verif.EX.EXModel Verif.EX.EXProofs.
 Import ListNotations.
 
-(* usage rules under which the full statements are meant: at least one worker, one stop() call, every task id
-   submitted at one place only *)
-Definition submit_ids (progs : list (list op)) : list nat :=
-  flat_map (fun p => flat_map (fun o => match o with OSubmit id => [id] | _ => [] end) p) progs.
-Definition stop_ops (progs : list (list op)) : nat :=
-  length (flat_map (fun p => flat_map (fun o => match o with OStop => [tt] | _ => [] end) p) progs).
+(* usage rules: at least one worker; every task id is written at one place only (one submit in one program, or
+   one position in one task body) - each closure is a distinct task *)
 Definition wf (c : config) (progs : list (list op)) : Prop :=
-  1 <= nworkers c /\ stop_ops progs <= 1 /\ NoDup (submit_ids progs ++ concat (bodies c)).
+  1 <= nworkers c /\ NoDup (submit_ids progs ++ concat (bodies c)).
 
-(* ---- full-strength statements (not proved, see header) ----------------------------------------------------- *)
-Definition c07_run_once_statement : Prop := forall c progs s, wf c progs -> Reach c progs s ->
+(* ---- exactly once ------------------------------------------------------------------------------------------- *)
+(* a task starts at most once, only if its submission was accepted (a refused or never made submission never
+   starts), and only on a worker thread, i.e. inside the RunnerScope keep_execute opens for this executor *)
+Theorem c07_run_once : forall c progs s, NoDup (submit_ids progs ++ concat (bodies c)) -> Reach c progs s ->
   NoDup (map fst (started s)) /\ (forall id w, In (id, w) (started s) -> In id (accepted s) /\ w < nworkers c).
-Definition c07_stop_drains_statement : Prop := forall c progs s, wf c progs -> Reach c progs s ->
-  stop_returned s = true -> forall id, In id (acc_before s) \/ In id (acc_local s) -> In id (finished s).
+Proof. exact ex_run_once. Qed.
+Print Assumptions c07_run_once.
 
-(* ---- proved ------------------------------------------------------------------------------------------------- *)
-Theorem c07_run_once_partial : forall c progs s id w, Reach c progs s -> In (id, w) (started s) -> w < nworkers c.
+Theorem c07_run_at_most_once : forall c progs s, NoDup (submit_ids progs ++ concat (bodies c)) -> Reach c progs s ->
+  NoDup (map fst (started s)).
+Proof. exact ex_nodup_started. Qed.
+Print Assumptions c07_run_at_most_once.
+
+Theorem c07_only_accepted_tasks_start : forall c progs s id w, Reach c progs s -> In (id, w) (started s) -> In id (accepted s).
+Proof. exact ex_started_accepted. Qed.
+Print Assumptions c07_only_accepted_tasks_start.
+
+(* a task only ever starts on a worker thread, i.e. inside the RunnerScope keep_execute opens for this executor *)
+Theorem c07_runs_inside_runner_scope : forall c progs s id w, Reach c progs s -> In (id, w) (started s) -> w < nworkers c.
 Proof. exact ex_started_on_worker. Qed.
-Print Assumptions c07_run_once_partial.
+Print Assumptions c07_runs_inside_runner_scope.
 
-Theorem c07_stop_drains_partial : forall c progs s, Reach c progs s ->
+(* ---- stop() drains -------------------------------------------------------------------------------------------- *)
+(* when stop() has returned, every task whose submission returned before stop() was called (acc_before) and every
+   task pushed into a local queue, at any time (acc_local), has finished - hence, with at-most-once, ran exactly once *)
+Theorem c07_stop_drains : forall c progs s, 1 <= nworkers c -> Reach c progs s -> stop_returned s = true ->
+  forall id, In id (acc_before s) \/ In id (acc_local s) -> In id (finished s).
+Proof. exact ex_stop_drains. Qed.
+Print Assumptions c07_stop_drains.
+
+(* the invariants behind it *)
+Theorem c07_global_queue_tickets : forall c progs s, Reach c progs s -> TicketInv s.
+Proof. exact ex_tickets. Qed.
+Print Assumptions c07_global_queue_tickets.
+
+Theorem c07_idle_worker_has_empty_local_queue : forall c progs s, Reach c progs s ->
+  forall t th w, nth_error (threads s) t = Some th -> trole th = RWorker w -> quiet (tpc th) = true -> drained (lq_of s w).
+Proof. exact ex_quiet_drained. Qed.
+Print Assumptions c07_idle_worker_has_empty_local_queue.
+
+Theorem c07_accepted_task_is_located : forall c progs s, Reach c progs s -> forall id, tracked s id -> located s id.
+Proof. exact ex_located. Qed.
+Print Assumptions c07_accepted_task_is_located.
+
+Theorem c07_token_count : forall c progs, (forall x, total c (init c progs) x <= 1) ->
+  forall s, Reach c progs s -> CntInv c progs s.
+Proof. exact ex_counts. Qed.
+Print Assumptions c07_token_count.
+
+Theorem c07_stop_sequencing : forall c progs s, Reach c progs s ->
   (stop_returned s = true ->
      (forall j, j < nworkers c -> worker_exited s j) /\
      (forall t th, nth_error (threads s) t = Some th -> trole th = RBal -> tpc th = BExit)) /\
@@ -63,7 +84,7 @@ Proof.
     (conj (fun t th Hn Hb Hp => ex_nostop_while_balancing c progs s t th Hr Hn Hb Hp)
           (ex_local_funs c progs s Hr)))).
 Qed.
-Print Assumptions c07_stop_drains_partial.
+Print Assumptions c07_stop_sequencing.
 
 (* stop() joins the workers in order: a stop() that is joining worker k has seen workers 0..k-1 exit *)
 Theorem c07_stop_joins_every_worker : forall c progs s, Reach c progs s ->
@@ -130,3 +151,5 @@ Proof. exact ex_demo_reach. Qed.
 Example c07_demo_drained : let s := run st (step demo_cfg) (init demo_cfg demo_progs) demo_sched in
   stop_returned s = true /\ finished s = [0; 1] /\ map fst (started s) = [0; 1] /\ acc_local s = [1] /\ acc_before s = [0].
 Proof. exact ex_demo. Qed.
+Example c07_demo_wf : wf demo_cfg demo_progs.
+Proof. exact ex_demo_wf. Qed.
